@@ -34,7 +34,7 @@ inductive Exc
   | loadError      -- `LoadError` re-raised by `FileSystemLoader.resolve` after telling the tracker
   | inputError     -- `InputError` raised by the default (`NullInputIssueTracker`) tracker on `add_error`
   | fileNotFound   -- `FileNotFoundError` from `load_identifier` → `stat` of a path that does not exist
-  | valueError     -- `ValueError("Unsupported file extension")` from `FileReader.read`
+  | valueError     -- `ValueError("Unsupported file extension")` from `FileReader.read`; `make_loader` argument clash
   deriving DecidableEq, Repr
 
 /-- one block of a sheet as `parse_blocks` delivers it (`to="pdtable"`: every block type has a handler) -/
@@ -42,7 +42,9 @@ structure FBlock where
   ty : BT
   row : Nat          -- `this_block_1st_row`, stamped into the origin by `block_output`
   name : Str         -- TABLE: first cell minus `**`; DIRECTIVE: first cell minus `***` (`make_directive`)
-  lines : List Str   -- DIRECTIVE: first cells of the following rows (`make_directive`)
+  lines : List Str   -- DIRECTIVE: first cells of the following rows (`make_directive`), as the text
+                     -- `IncludeReader` makes of them (`line if isinstance(line, str) else str(line)`)
+  bad : Bool := false -- TABLE: the table handler raises `ValueError` (a cell that does not parse)
   deriving DecidableEq, Repr
 
 structure Sheet where
@@ -169,12 +171,42 @@ def nodeOuts (allow : Bool) (l : Loc) (it : Item) : Node → List Out
   | .file sheets => sheets.flatMap (sheetOuts allow l it)
   | .unreadable => []
 
+/-! ### tables that do not parse (`block_output`: `except ValueError: issue_tracker.add_error(...)`) -/
+
+def Sheet.hasBad (s : Sheet) : Bool := s.use && s.blocks.any (·.bad)
+
+/-- the sheets as a read gets through them.  Collecting tracker: an unparsable table is reported and dropped,
+    reading goes on.  Default tracker: `add_error` raises `InputError` at the first one — blocks before it have
+    been delivered, nothing after it (nor any later sheet) is read. -/
+def cutSheets (raising : Bool) : List Sheet → List Sheet
+  | [] => []
+  | s :: rest =>
+    if !s.use then s :: cutSheets raising rest
+    else if raising then
+      if s.blocks.any (·.bad) then [{ s with blocks := s.blocks.takeWhile (fun b => !b.bad) }]
+      else s :: cutSheets raising rest
+    else { s with blocks := s.blocks.filter (fun b => !b.bad) } :: cutSheets raising rest
+
+/-- the node as a read under this tracker gets through it -/
+def effNode (raising : Bool) : Node → Node
+  | .file sheets => .file (cutSheets raising sheets)
+  | n => n
+
 /-! ### queued_load -/
 
 inductive Issue
   | dup (loc : Loc) (item : Item)   -- "Load location included multiple times": load_location, its load_specification
   | resolveFail (item : Item)       -- the LoadError of a failed resolution, `load_item=`
+  | parse (loc : Loc) (sheet : Option Str) (row : Nat)  -- a table that does not parse, `load_location=` its block
   deriving DecidableEq, Repr
+
+/-- what a collecting tracker is told while the node is read: one error per unparsable table, in file order -/
+def nodeIssues (raising : Bool) (l : Loc) : Node → List Issue
+  | .file sheets =>
+    if raising then []
+    else sheets.flatMap fun s =>
+      if s.use then (s.blocks.filter (·.bad)).map (fun b => Issue.parse l s.name b.row) else []
+  | _ => []
 
 inductive Status
   | running
@@ -205,10 +237,12 @@ def pop (pick : List Item → Nat) (s : List Item) : Option (Item × List Item) 
   | some x => some (x, s.eraseIdx (pick s % s.length))
   | none => none
 
-/-- `FileReader.read` refuses an unknown extension when the generator is started (after `visited.add`) -/
-def readStatus : Node → Status
+/-- `FileReader.read` refuses an unknown extension when the generator is started (after `visited.add`);
+    the default tracker raises at the first table that does not parse -/
+def readStatus (raising : Bool) : Node → Status
   | .unreadable => .raised .valueError
-  | _ => .running
+  | .file sheets => if raising && sheets.any Sheet.hasBad then .raised .inputError else .running
+  | .folder _ => .running
 
 /-- one iteration of `while orch.load_items:` -/
 def loadStep (w : World) (cfg : Cfg) (st : LSt) : LSt × Status :=
@@ -228,8 +262,9 @@ def loadStep (w : World) (cfg : Cfg) (st : LSt) : LSt × Status :=
           else ({ st with stack := rest, issues := st.issues ++ [.dup l it] }, .running)
         else
           ({ st with visited := st.visited ++ [l],
-                     stack := rest ++ nodePushes cfg.allowInclude l it node,
-                     out := st.out ++ nodeOuts cfg.allowInclude l it node }, readStatus node)
+                     stack := rest ++ nodePushes cfg.allowInclude l it (effNode cfg.raising node),
+                     out := st.out ++ nodeOuts cfg.allowInclude l it (effNode cfg.raising node),
+                     issues := st.issues ++ nodeIssues cfg.raising l node }, readStatus cfg.raising node)
 
 def loadRun (w : World) (cfg : Cfg) : Nat → LSt → LSt × Status
   | 0, st => (st, .outOfFuel)
@@ -244,18 +279,28 @@ def loadInit (roots : List Str) : LSt := ⟨roots.map Item.root, [], [], []⟩
 def weight (allow : Bool) (n : Node) : Nat := (nodePushes allow 0 (.root []) n).length + 1
 
 /-- enough iterations for every world: every root, every item any location can push, one to see the empty list -/
-def fuelBound (w : World) (allow : Bool) (roots : List Str) : Nat :=
-  roots.length + ((w.nodes.map (fun p => weight allow p.2)).sum) + 1
+def fuelBound (w : World) (raising allow : Bool) (roots : List Str) : Nat :=
+  roots.length + ((w.nodes.map (fun p => weight allow (effNode raising p.2))).sum) + 1
+
+/-- `make_loader`: "file_name_start_pattern cannot be used with file_name_pattern" (`ValueError`) -/
+def loaderArgsOk (hasPattern hasStartPattern : Bool) : Bool := !(hasPattern && hasStartPattern)
 
 /-- `load_files(roots, …)` after `make_loader`: `roots=[LoadItem(str(f), source=None) for f in roots]` -/
 def loadFiles (w : World) (cfg : Cfg) (roots : List Str) : LSt × Status :=
-  loadRun w cfg (fuelBound w cfg.allowInclude roots) (loadInit roots)
+  loadRun w cfg (fuelBound w cfg.raising cfg.allowInclude roots) (loadInit roots)
 
 /-! ### reading a sheet: from rows to blocks (glue between `parse_blocks_stable` and the loader) -/
 
 def firstStr : Row → Str
   | .str s :: _ => s
   | _ => []
+
+/-- the first cell of a directive line as the specification it becomes: the text itself; a cell that is not
+    text (a number typed into a workbook) becomes its Python `str()` — the harness sends such cells as
+    `other` cells whose tag is the `str()` computed by CPython, so nothing is re-derived here -/
+def lineTok : Row → Str
+  | c :: _ => c.pyStr
+  | [] => []
 
 def toFBlock (b : Block Row) : FBlock :=
   let head := match b.rows with
@@ -267,11 +312,16 @@ def toFBlock (b : Block Row) : FBlock :=
       | .directive => head.drop 3
       | _ => [],
     lines := match b.ty with
-      | .directive => b.rows.tail.map firstStr
+      | .directive => b.rows.tail.map lineTok
       | _ => [] }
 
 def Sheet.ofRows (name : Option Str) (use : Bool) (rows : List Row) : Sheet :=
   ⟨name, use, (segment rows).map toFBlock⟩
+
+/-- the same, with the tables that do not parse marked: `badRows` are the origin rows of those tables -/
+def Sheet.ofRowsBad (name : Option Str) (use : Bool) (rows : List Row) (badRows : List Nat) : Sheet :=
+  ⟨name, use, (segment rows).map fun blk =>
+    { toFBlock blk with bad := blk.ty == .table && badRows.contains blk.first }⟩
 
 /-! ### make_location_trees (_tree.py) -/
 
